@@ -1,6 +1,7 @@
 (* C02: the encoder emits exactly the published wire format, with canonical varints. *)
 From PV Require Import Base MachineInt VarintParams GenArith GenLoops Varint Utf8 DataModel Ser De
   WireFormat VarintFacts VarintCore ZigZagFacts SerFacts SerMethods SerMethodFacts.
+From PV Require Import GenErrorImpls.
 Open Scope N_scope.
 
 (* every typed value serialises (no refusal) to exactly the wire-format.md encoding *)
@@ -73,6 +74,12 @@ Example C02_example :
   = [215; 4; 1; 2; 104; 105; 1; 0; 0; 128; 63].
 Proof. split; vm_compute; reflexivity. Qed.
 
+(* what serde's `custom` errors become (the model's SerdeSerCustom / SerdeDeCustom outcomes for a
+   failing Serialize / Deserialize impl): the two impls of error.rs match their template *)
+Theorem C02_custom_errors_are_the_source :
+  error_fns_matched = [[64; 105; 109; 112; 108; 32; 115; 101; 114; 100; 101; 58; 58; 115; 101; 114; 58; 58; 69; 114; 114; 111; 114; 32; 102; 111; 114; 32; 69; 114; 114; 111; 114]].
+Proof. exact (eq_refl error_fns_matched). Qed.
+
 Print Assumptions C02_encode_is_spec.
 Print Assumptions C02_spec_varint_equation.
 Print Assumptions C02_varint_canonical.
@@ -83,3 +90,4 @@ Print Assumptions C02_collect_str.
 Print Assumptions C02_source_loops_are_standard.
 Print Assumptions C02_model_is_the_method_bodies.
 Print Assumptions C02_encoding_of_the_method_bodies.
+Print Assumptions C02_custom_errors_are_the_source.
